@@ -60,6 +60,14 @@ def mk(rng, quick):
             if r < 0.3: c["start"] = 1
             elif r < 0.5: c["start"], c["reset"] = 1, 2
         calls.append(c)
+    ccgroup = None
+    if rng.random() < 0.15:
+        # changed_cols(prefix, ignoreNull, v, w): ONE call that reports every listed column that changed under prefix + its name (the others are
+        # absent); per column it is changed_col's state machine - a NULL / missing value under ignoreNull neither counts as a change nor
+        # replaces the baseline
+        ign = rng.choice([0, 1, 1])
+        calls = [{"al": "c_" + cname, "fn": "changed_col", "col": cname, "off": 1, "hasdef": 0, "def": {"k": "null"}, "ign": ign, "start": 0, "reset": 0, "show": 1} for cname in ("v", "w")]
+        ccgroup = 'changed_cols("c_", %s, v, w)' % ("true" if ign else "false")
     part = rng.choice(["", "k", "k"])
     when = None
     if rng.random() < 0.3:
@@ -73,6 +81,8 @@ def mk(rng, quick):
     over = ""
     if part or when is not None:
         over = " OVER (" + ("PARTITION BY k" if part else "") + ((" " if part else "") + "WHEN " + sql(when) if when is not None else "") + ")"
+    if ccgroup:
+        wmode = "plain"
     if wmode == "analytic":
         c0 = calls[0]
         if c0["fn"] in ("had_changed", "changed_col", "latest") or c0["fn"] == "lag":
@@ -86,6 +96,8 @@ def mk(rng, quick):
         txt = "SELECT id, v%s FROM stream WHERE %s%s %s %d" % ("".join(", %s%s AS %s" % (call_sql(c, conds), over, c["al"]) for c in calls[1:]), call_sql(c0, conds), over, wop, wlit)
     else:
         txt = "SELECT id, " + ", ".join("%s%s AS %s" % (call_sql(c, conds), over, c["al"]) for c in calls) + " FROM stream"
+        if ccgroup:
+            txt = "SELECT id, " + ccgroup + over + " FROM stream"
         if where is not None:
             txt += " WHERE " + sql(where)
     nparts = rng.choice([1, 2, 3])
@@ -96,6 +108,10 @@ def mk(rng, quick):
         row = {"id": i + 1, "k": rng.choice(pool[:nparts]), "w": rng.choice([0, 1, 1, 2])}
         x = rng.choice([None, MISSING, 1, 1, 2, 3, -1, {"$f": 2.5}])
         if x != MISSING: row["v"] = x
+        if ccgroup:      # values that come back after a gap (v, NULL, v), in both columns
+            row["v"] = rng.choice([1, 1, 2, None]); row["w"] = rng.choice([5, 5, None, 6])
+            if rng.random() < 0.2: del row["v"]
+            if rng.random() < 0.2: del row["w"]
         rows.append(row)
     wraps = []
     numeric = lambda c: c["fn"] not in ("had_changed", "changed_col")
@@ -110,6 +126,8 @@ def mk(rng, quick):
     meta = {"fam": "analytic", "wraps": wraps, "calls": [{k: v for k, v in c.items() if not k.startswith("_")} for c in calls], "part": part, "conds": conds, "wmode": wmode, "wop": wop, "wlit": wlit * 10000}
     if when is not None: meta["when"] = when
     if where is not None: meta["where"] = where
+    if ccgroup:      # the output columns are named after the data columns (c_v): the name layer does not apply
+        return {"meta": meta, "sql": txt, "rows": rows, "norename": True}
     return {"meta": meta, "sql": txt, "rows": rows}
 
 
